@@ -169,7 +169,11 @@ func (a *allocation) createPermission(perm *permission, addr net.Addr) error {
 	if perm.state() == permStateIdle {
 		// Punch a hole! (this would block a bit..)
 		if err := a.CreatePermissions(addr); err != nil {
-			a.permMap.delete(addr)
+			// On errTryAgain the caller retries with this very permission:
+			// it has to stay registered or it would never be refreshed.
+			if !errors.Is(err, errTryAgain) {
+				a.permMap.delete(addr)
+			}
 
 			return err
 		}
